@@ -306,4 +306,115 @@ Proof.
     + destruct (step_flags_mono c l s s' o Hs) as (A & _); auto.
     + exists (l :: sched). cbn. rewrite Hs. destruct (run c sched s'). exact Hd.
 Qed.
+
+(* ================= deadlock freedom ================= *)
+Definition close_inv (s : state) : Prop := c_pc s = CClose -> cancelled s = true.
+
+Lemma close_step : forall l s s' o, close_inv s -> step c l s = Some (s', o) -> close_inv s'.
+Proof.
+  intros l s s' o HI H.
+  destruct l as [d|i d|d| |a]; [| | | |destruct a]; step_cases H; unfold close_inv in *; cbn; es_rw c s;
+    try exact HI; try (intros E; first [discriminate E | reflexivity]);
+    try (intros E; match goal with Hp : is_cidle (c_pc s) = true |- _ => rewrite E in Hp; discriminate Hp end).
+Qed.
+
+Lemma reach_close : forall s, reach c s -> close_inv s.
+Proof.
+  intros s H. induction H as [|s l s' o Hr IH Hs]; [intros E; discriminate E|]. exact (close_step l s s' o IH Hs).
+Qed.
+
+Lemma cons_enabled : forall s, c_pc s = CNext ->
+  (cd_objs s <> [] \/ oq s <> [] \/ oq_closed s = true) -> exists s' o, step c LCo s = Some (s', o).
+Proof.
+  intros s Hc H. cbn. unfold step_cons. rewrite Hc.
+  destruct (cd_objs s) as [|v rest].
+  - destruct (oq s) as [|x q].
+    + destruct H as [H|[H|H]]; try (exfalso; apply H; reflexivity). rewrite H. eauto.
+    + destruct (Z.eqb (o_err x) eEOF); [destruct (c_nextctx c)|]; eauto.
+  - destruct (is_err (cd_err s)); eauto.
+Qed.
+
+Hypothesis Hwf : wf_input (c_inp c) = true.
+Hypothesis Hre : c_recheck c = true.
+Hypothesis Hnx : c_nextctx c = true.
+Hypothesis Hand : c_and c = true.
+
+Definition is_progress (l : label) : bool := match l with LApi _ => false | _ => true end.
+
+(* NO DEADLOCK: in every reachable state in which the scanning goroutine is inside a call (blocked
+   in Next, or waiting in Close), some goroutine — pipeline or consumer — has an enabled step; the
+   environment (further API calls, cancellation) is not needed.  For every n >= 1, in particular
+   n > 10 where the worker channels are unbuffered. *)
+Lemma no_deadlock : forall s, reach c s -> c_pc s <> CIdle ->
+  exists l s' o, is_progress l = true /\ step c l s = Some (s', o).
+Proof.
+  intros s Hr Hnidle.
+  pose proof (reach_len s Hr) as HL. pose proof (reach_first s Hr) as HF.
+  pose proof (reach_sdone s Hr) as [[HS1 HS2] HS3]. pose proof (reach_next s Hr) as (HN & _ & _).
+  pose proof (reach_close s Hr) as HC. pose proof (reach_wdone s Hr) as HW.
+  assert (forall l, is_pipeline l = true -> is_progress l = true) as Hpp by (intros []; cbn; congruence).
+  (* cancelled: progress of the pipeline, or everything is done and the consumer can go on *)
+  assert (cancelled s = true -> running s = true -> all_done s = false ->
+          exists l s' o, is_progress l = true /\ step c l s = Some (s', o)) as Hcan.
+  { intros Hc Hrun Hnd. destruct (cancel_progress s Hr Hrun Hc Hnd) as (l & s' & o & Hp & Hs). eauto 6. }
+  destruct (c_pc s) eqn:Ecp; [exfalso; apply Hnidle; reflexivity| |].
+  - (* blocked in Next *)
+    destruct (HN eq_refl) as [Hrun _].
+    destruct (cd_objs s) as [|v rest] eqn:Eco.
+    2:{ destruct (cons_enabled s Ecp) as (s' & o & Hs); [left; rewrite Eco; discriminate|]. exists LCo, s', o. auto. }
+    destruct (oq s) as [|x q] eqn:Eoq.
+    2:{ destruct (cons_enabled s Ecp) as (s' & o & Hs); [right; left; rewrite Eoq; discriminate|]. exists LCo, s', o. auto. }
+    destruct (oq_closed s) eqn:Ecl.
+    { destruct (cons_enabled s Ecp) as (s' & o & Hs); [right; right; exact Ecl|]. exists LCo, s', o. auto. }
+    destruct (cancelled s) eqn:Ecan.
+    { apply Hcan; auto. unfold all_done. rewrite Hrun. cbn.
+      destruct (s_pc s) eqn:Es; cbn; rewrite ?andb_false_r; try reflexivity.
+      pose proof (HS1 eq_refl) as Hx. discriminate Hx. }
+    (* not cancelled: the order invariant is available *)
+    destruct (reach_inv c Hn Hwf Hre Hnx s Hr) as (_ & _ & HU). specialize (HU Ecan).
+    destruct HU as (U0 & U1 & U2 & U3 & U4 & U5 & U6).
+    destruct (s_pc s) as [|p|p|] eqn:Es.
+    + (* SRecv *)
+      set (i := s_cnt s mod c_n c). assert (i < c_n c) as Hi by (apply Nat.mod_upper_bound; lia).
+      assert ((i <? c_n c) = true) as Hlt by (apply Nat.ltb_lt; exact Hi).
+      destruct (w_out (getw i (ws s))) as [|po qo] eqn:Eout.
+      2:{ enabled c s Hrun (LSe false). rewrite Es in E. fold i in E. rewrite Eout in E. discriminate E. }
+      destruct (w_pc (getw i (ws s))) as [|ow|] eqn:Epc.
+      * (* worker i waits for input *)
+        destruct (w_in (getw i (ws s))) as [|x q] eqn:Ein.
+        2:{ enabled c s Hrun (LWk i false). rewrite Hlt, Epc, Ein in E. discriminate E. }
+        destruct (r_pc s) as [e| |k it sel|] eqn:Er.
+        -- enabled c s Hrun (LRd false). rewrite Er in E. destruct (loop_cond c _ _); discriminate E.
+        -- enabled c s Hrun (LRd false). rewrite Er in E. discriminate E.
+        -- (* the reader holds a pair: it must be for worker i *)
+           assert (k mod c_n c = i) as Hki.
+           { destruct (Nat.eq_dec (k mod c_n c) i) as [Eq|Ne]; [exact Eq|exfalso].
+             assert (k mod c_n c < c_n c) as Hk by (apply Nat.mod_upper_bound; lia).
+             pose proof (U1 _ Hk) as U1k. cbn [rheld] in U1k. rewrite Nat.eqb_refl in U1k.
+             specialize (U1 i Hi). unfold outs_w in U1. rewrite Eout, Epc, Ein in U1. cbn in U1.
+             apply Nat.eqb_neq in Ne. rewrite Ne in U1.
+             assert (s_cnt s < r_pos s) as Hlt2.
+             { destruct (Nat.eq_dec (s_cnt s) (r_pos s)) as [Eq2|]; [|lia]. exfalso.
+               rewrite Eq2, want_nil in U1k.
+               apply app_eq_nil in U1k. destruct U1k as [_ X]. discriminate X. }
+             rewrite (want_S_l c Hn (s_cnt s) (r_pos s)) in U1 by exact Hlt2. fold i in U1.
+             rewrite Nat.eqb_refl in U1. discriminate U1. }
+           enabled c s Hrun (LRd false). rewrite Er, Hki, Ein, Epc in E. cbn in E. unfold can_send in E.
+           destruct (cap c); cbn in E; destruct sel; discriminate E.
+        -- enabled c s Hrun (LWk i false). rewrite Hlt, Epc, Ein, Er in E. discriminate E.
+      * (* worker i holds a result: its output is empty and the serializer waits on it *)
+        enabled c s Hrun (LWk i false). rewrite Hlt, Epc, Eout in E. cbn in E.
+        unfold can_send, ser_waiting_on in E. rewrite Es in E. fold i in E. rewrite Nat.eqb_refl in E.
+        destruct (cap c) eqn:Ecap; cbn in E; rewrite ?Nat.eqb_refl in E; cbn in E; discriminate E.
+      * enabled c s Hrun (LSe false). rewrite Es in E. fold i in E. rewrite Eout, Epc in E. discriminate E.
+    + enabled c s Hrun (LSe false). rewrite Es in E. destruct (c_recheck c && cancelled s)%bool; discriminate E.
+    + enabled c s Hrun (LSe false). rewrite Es, Eoq in E. cbn in E.
+      destruct (c_n c) eqn:En; [lia|]. cbn in E. destruct (is_err (o_err p)); discriminate E.
+    + exfalso. exact U6.
+  - (* waiting in Close *)
+    pose proof (HC Ecp) as Hcc.
+    destruct (all_done s) eqn:Ed.
+    + exists LCo. cbn. unfold step_cons. rewrite Ecp, Ed. eauto.
+    + destruct (running s) eqn:Hrun; [apply Hcan; auto|]. unfold all_done in Ed. rewrite Hrun in Ed. discriminate Ed.
+Qed.
 End Live.
